@@ -53,6 +53,9 @@ type Sink struct {
 	// successful Close.
 	closeCh chan<- struct{}
 
+	// afterClose, when non-nil, is called once Close has installed the snapshot.
+	afterClose func() error
+
 	// fatalFn is called when Close encounters an error during an incremental
 	// snapshot. In production this terminates the process to avoid data
 	// corruption; in tests it can be set to nil so errors propagate normally.
@@ -92,6 +95,12 @@ func (s *Sink) Open() error {
 		return err
 	}
 	return nil
+}
+
+// SetAfterClose registers a function which Close calls once the snapshot has been
+// installed in the store. It is not called if Close fails or the sink is cancelled.
+func (s *Sink) SetAfterClose(fn func() error) {
+	s.afterClose = fn
 }
 
 // ID returns the ID of the snapshot.
@@ -253,6 +262,13 @@ func (s *Sink) Close() (retErr error) {
 	}
 	if err := fsutil.SyncDirMaybe(s.dir); err != nil {
 		return err
+	}
+
+	if s.afterClose != nil {
+		if err := s.afterClose(); err != nil {
+			// The snapshot is installed, so this is not a failure of the snapshot itself.
+			s.logger.Printf("after-close function failed for snapshot %s: %v", s.meta.ID, err)
+		}
 	}
 
 	if s.closeCh != nil {
